@@ -21,6 +21,7 @@ impl KEnv {
 // @harness c15_slice_key_of_top_offset
 // @props C15 C16 C02 C04
 // @tier quick
+// @cost 69
 // @timeout 900
 // @needs K0
 // @desc rb_slice_key_of_rt_off / l2_slice_key_of_l1_off (lifted verbatim) are the inverse of the slice-key functions: for the top-table entry at byte offset 8*i they return the key of the FIRST slice below entry i, and a slice belongs to entry i iff its key lies in [key_of(8*i), key_of(8*(i+1))) -- so the key window flush_meta_generic derives from a dirty top-table block contains exactly the slices whose parent entry lies in that block
@@ -70,7 +71,7 @@ fn c15_slice_key_of_top_offset() {
 // @harness c16_top_table_flush
 // @props C16 C15 C02 C04
 // @tier quick
-// @cost 150
+// @cost 48
 // @timeout 1200
 // @needs K1 K2
 // @desc flush_top_table and flush_meta_generic (whole bodies, awaited calls shimmed) on a refcount table with up to 2 dirty entries: every write they issue for the top table starts at table_offset + (idx << block_bits), is exactly one block long, block aligned, lies inside the table and covers a dirtied entry; flush_meta_generic flushes the child slices of exactly that block's entries first, fsyncs iff something was flushed, and reports done only when no dirty block is left
@@ -146,7 +147,7 @@ fn c16_top_table_flush() {
 // @harness c18_flush_meta_driver
 // @props C18 C03 C02 C04
 // @tier quick
-// @cost 30
+// @cost 8
 // @timeout 600
 // @needs FM
 // @desc the whole body of flush_meta (lock and the two flush helpers shimmed; the mapping flush reports "not done" a symbolic number of times): every pass flushes the refcounts BEFORE the mappings; need_flush is cleared exactly once, after a pass in which the mapping flush reported that nothing is left, and never before (every helper call of every pass still sees the flag set); it returns Ok
@@ -187,7 +188,7 @@ fn c18_flush_meta_driver() {
 // @harness c17_top_table_flush_failure
 // @props C17 C18
 // @tier quick
-// @cost 60
+// @cost 11
 // @timeout 900
 // @needs K1 K2
 // @desc a backend failure while a dirty top-table block is being written (flush_top_table / flush_meta_generic, whole bodies): the error is returned, and the block is STILL queued as dirty afterwards, so that repeating the flush once the backend works again writes it -- a dirty mark must not be lost with the failed request
